@@ -19,16 +19,27 @@ import (
 // C19 — permissioned IBC channel admin follows the challenger; no channel capture.
 
 const c19Port = "transfer"
+const c19Port2 = "icqhost"
 
-var c19Channels = []string{"channel-1", "channel-2", "channel-3"} // channel-3 never exists
+// channels are named port/channel-id when the port is not "transfer"; transfer's channel-3 never
+// exists; icqhost/channel-1 shares its channel id with transfer's channel-1
+var c19Channels = []string{"channel-1", "channel-2", "channel-3", c19Port2 + "/channel-1"}
+
+func c19Split(name string) (port, ch string) {
+	if i := strings.IndexByte(name, '/'); i >= 0 {
+		return name[:i], name[i+1:]
+	}
+	return c19Port, name
+}
 
 type c19Meta struct {
 	name string
 	raw  []byte
 }
 
-func c19Entry(ch string) string {
-	return fmt.Sprintf(`{"port_id":"%s","channel_id":"%s"}`, c19Port, ch)
+func c19Entry(name string) string {
+	port, ch := c19Split(name)
+	return fmt.Sprintf(`{"port_id":"%s","channel_id":"%s"}`, port, ch)
 }
 
 var c19Menu = []c19Meta{
@@ -37,6 +48,9 @@ var c19Menu = []c19Meta{
 	{"P[c2,c1]", []byte(`{"perm_channels":[` + c19Entry("channel-2") + `,` + c19Entry("channel-1") + `]}`)},
 	{"P[c2,c3-missing]", []byte(`{"perm_channels":[` + c19Entry("channel-2") + `,` + c19Entry("channel-3") + `]}`)},
 	{"P[]", []byte(`{"perm_channels":[]}`)},
+	{"P[icq-c1]", []byte(`{"perm_channels":[` + c19Entry(c19Port2+"/channel-1") + `]}`)},
+	{"P[c1,icq-c1]", []byte(`{"perm_channels":[` + c19Entry("channel-1") + `,` + c19Entry(c19Port2+"/channel-1") + `]}`)},
+	{"P[c1,c1]", []byte(`{"perm_channels":[` + c19Entry("channel-1") + `,` + c19Entry("channel-1") + `]}`)},
 	{"N-extra-field", []byte(`{"perm_channels":[` + c19Entry("channel-1") + `],"note":"x"}`)},
 	{"N-extra-field-in-entry", []byte(`{"perm_channels":[{"port_id":"transfer","channel_id":"channel-2","admin":"me"}]}`)},
 	{"A-duplicate-key", []byte(`{"perm_channels":[],"perm_channels":[` + c19Entry("channel-1") + `]}`)},
@@ -54,7 +68,7 @@ var c19Menu = []c19Meta{
 }
 
 // letters of the search use a representative subset; the whole menu is probed in every state.
-var c19LetterMenu = []string{"P[c1]", "P[c1,c2]", "P[c2,c3-missing]", "A-other-case-next-to-exact", "N-not-json", "empty"}
+var c19LetterMenu = []string{"P[c1]", "P[c1,c2]", "P[c2,c3-missing]", "P[icq-c1]", "P[c1,icq-c1]", "A-other-case-next-to-exact", "N-not-json", "empty"}
 
 func c19MetaByName(n string) c19Meta {
 	for _, m := range c19Menu {
@@ -147,10 +161,14 @@ func c19Classify(md []byte) (class string, chans []string) {
 		if !ok1 || !ok2 || json.Unmarshal(pr, &port) != nil || json.Unmarshal(cr, &ch) != nil {
 			return "A", nil
 		}
-		if port != c19Port {
+		switch port {
+		case c19Port:
+			chans = append(chans, ch)
+		case c19Port2:
+			chans = append(chans, port+"/"+ch)
+		default:
 			return "A", nil
 		}
-		chans = append(chans, ch)
 	}
 	return "P", chans
 }
@@ -186,6 +204,7 @@ func (y *c19Sys) Root() *c19State {
 	w := world.NewL1(world.L1Options{Accounts: map[string]sdk.Coins{"proposer": nil, "creator": nil, "submitter": nil, "chX": nil, "chY": nil}})
 	w.Perm.SetChannelSeq(w.Ctx, c19Port, "channel-1", 1)
 	w.Perm.SetChannelSeq(w.Ctx, c19Port, "channel-2", 1)
+	w.Perm.SetChannelSeq(w.Ctx, c19Port2, "channel-1", 1)
 	return &c19State{ctx: w.Ctx, w: w}
 }
 
@@ -222,10 +241,11 @@ type c19Chan struct {
 
 func (s *c19State) channels(ctx sdk.Context) map[string]c19Chan {
 	out := map[string]c19Chan{}
-	for _, ch := range c19Channels {
-		seq, ok := s.w.Perm.GetNextSequenceSend(ctx, c19Port, ch)
+	for _, name := range c19Channels {
+		port, ch := c19Split(name)
+		seq, ok := s.w.Perm.GetNextSequenceSend(ctx, port, ch)
 		c := c19Chan{exists: ok, seq: seq}
-		if a := s.w.Perm.Admin(ctx, c19Port, ch); a != nil {
+		if a := s.w.Perm.Admin(ctx, port, ch); a != nil {
 			c.admin = "other"
 			for _, n := range []string{"chX", "chY"} {
 				if world.Addr(n).Equals(a) {
@@ -233,7 +253,7 @@ func (s *c19State) channels(ctx sdk.Context) map[string]c19Chan {
 				}
 			}
 		}
-		out[ch] = c
+		out[name] = c
 	}
 	return out
 }
